@@ -51,18 +51,92 @@ def build_harness():
     _built = True
 
 
+class EngineDied(ToolError):
+    """an engine was killed (signal, memory exhaustion) or did not finish in time: tools/check.py tries to reproduce it on the one
+    instance it was working on -- a reproducible death is the library hanging / exhausting memory (data), anything else a tool error"""
+    def __init__(self, name, args, how):
+        super().__init__(f"engine {name} {' '.join(map(str, args[:3]))} {how}")
+        self.name, self.args_, self.how = name, [str(a) for a in args], how
+
+
+def _limits():
+    import resource
+    resource.setrlimit(resource.RLIMIT_AS, (12 << 30, 12 << 30))        # an engine needs well under 1 GB
+
+
 def run_bin(name, args, timeout=1800, env=None, check=True):
     build_harness()
     exe = os.path.join(os.environ.get("VERIF_BIN_DIR") or os.path.join(HARNESS, "target", "debug"), name)
     e = dict(os.environ)
     if env:
         e.update(env)
-    p = subprocess.run([exe] + [str(a) for a in args], capture_output=True, text=True, timeout=timeout, env=e)
+    try:
+        p = subprocess.run([exe] + [str(a) for a in args], capture_output=True, text=True, timeout=timeout, env=e, preexec_fn=_limits)
+    except subprocess.TimeoutExpired:
+        raise EngineDied(name, args, f"did not finish within {timeout} s")
+    if p.returncode < 0 or (p.returncode == 101 and "memory allocation" in (p.stderr or "")) or (p.returncode == 134):
+        raise EngineDied(name, args, f"was killed (exit {p.returncode}): {(p.stderr or '')[-200:]}")
     if check and p.returncode != 0:
         log(p.stdout[-2000:])
         log(p.stderr[-4000:])
         raise ToolError(f"engine {name} {' '.join(map(str, args[:3]))} exited with {p.returncode}")
     return p
+
+
+def reproduce_engine_death(pid, tier, err):
+    """re-run the engine on the last instance it had started (alone, twice, 90 s, memory-limited); returns a replay object when it dies again"""
+    a = err.args_
+    if "--out" not in a or err.name not in ("seq", "dd", "par"):
+        return None
+    out = a[a.index("--out") + 1]
+    last = None
+    try:
+        with open(out) as f:
+            for l in f:
+                if '"ev":"reset"' in l:
+                    last = l
+    except OSError:
+        return None
+    cur = out + ".cur"          # the instance of the unlogged sweep run in progress, if any
+    if os.path.exists(cur):
+        try:
+            reset = json.load(open(cur))
+        except ValueError:
+            return None
+    else:
+        if last is None:
+            return None
+        try:
+            reset = json.loads(last)
+        except ValueError:
+            return None            # the line was being written when the engine died: cannot tell
+    w = workdir(f"{pid}_died")
+    inst = os.path.join(w, "inst.json")
+    def opt(k, d=None):
+        return a[a.index(k) + 1] if k in a else d
+    if err.name == "par":
+        json.dump([{"inst": reset["inst"], "cfg": reset["cfg"], "role": reset.get("role", "job")}], open(inst, "w"))
+        args = ["--jobs", inst, "--out", os.path.join(w, "alone.ndjson")]
+    else:
+        json.dump([reset["inst"]], open(inst, "w"))
+        args = ["--seed", opt("--seed", "1"), "--inst-file", inst, "--out", os.path.join(w, "alone.ndjson")]
+        for k in ("--mode", "--family", "--maxn", "--per-instance", "--dd", "--cfg"):
+            if opt(k) is not None and not (k == "--cfg" and err.name == "seq" and reset.get("cfg")):
+                args += [k, opt(k)]
+        if err.name == "seq" and reset.get("cfg"):
+            args += ["--cfg", json.dumps({k: reset["cfg"][k] for k in ("dd", "fringe", "width")})]
+        if err.name == "dd" and "--callbacks" in a:
+            args.append("--callbacks")
+    died = 0
+    for _ in range(2):
+        try:
+            run_bin(err.name, args, timeout=90, check=False)
+        except EngineDied:
+            died += 1
+    if died < 2:
+        return None
+    return {"engine": err.name, "args": [str(x) for x in args], "inst": reset["inst"], "cfg": reset.get("cfg"), "how": err.how,
+            "note": "the engine dies on this instance alone, twice: the library does not return (hang) or exhausts the memory"}
 
 
 # ----------------------------------------------------------------------------- TLC
